@@ -1,7 +1,7 @@
 (* C07 - Tunnelled connections are faithful byte streams with close propagation. *)
 From Coq Require Import List Bool Arith.
 From Piko Require Import Stream.WsConn Stream.Pipe Stream.CopyPair
-                         StreamP.WsConnP StreamP.PipeP StreamP.CopyPairP StreamP.StreamThms.
+                         StreamP.WsConnP StreamP.PipeP StreamP.CopyPairP StreamP.StreamThms StreamP.PipeLive.
 Import ListNotations.
 
 (* "Bytes written at one end ... arrive at the other end exactly once, in order and unmodified, for every
@@ -102,6 +102,19 @@ Example C07_two_hops_example :
   = ([1;2;3;4], [ENone; ENone; ENone; ENone; EClosed], []).
 Proof. vm_compute. reflexivity. Qed.
 
+(* "arrive at the other end ... Closing either end is observed as end-of-stream at the other end": the chain
+   never gets stuck with bytes in it. From every state reached by any schedule there is a continuation made
+   only of copier iterations and sink reads (non-empty buffers) after which the sink has received exactly what
+   the source wrote, and - if the source has closed - has also been told so (net.ErrClosed / EOF). *)
+Theorem C07_two_hops_live :
+  forall (A : Type) (hops : nat) (ops : list (pop A)),
+  let s := prun (pinit A hops) ops in
+  exists more,
+    Forall (fun o => match o with PCopy _ n _ _ => 0 < n | PRead n _ _ => 0 < n | _ => False end) more
+    /\ p_delivered (prun s more) = accepted ops
+    /\ (head_closed (p_chs s) = true -> Exists (fun o => r_err o = EClosed) (p_outs (prun s more))).
+Proof. exact pipeline_live. Qed.
+
 (* "Closing either end is observed as end-of-stream at the other end and releases both legs": in the copy
    pair, from every reachable state, once either connection is closed (by its remote peer or locally)
    (a) every continuation is bounded: the copiers make at most measure(s1) + 3 * (bytes the peers still send)
@@ -142,5 +155,6 @@ Print Assumptions C07_read_stream.
 Print Assumptions C07_read_natural.
 Print Assumptions C07_write_read_roundtrip.
 Print Assumptions C07_two_hops.
+Print Assumptions C07_two_hops_live.
 Print Assumptions C07_close_propagates.
 Print Assumptions C07_pair_streams.
